@@ -253,6 +253,8 @@ def run_check(prop, tier, seed, replay=None):
             cov.update(hook(ctx, results) or {})
         except Exception as e:
             ctx.notes.append("extra_coverage failed: %r" % (e,))
+    if getattr(prop, "LEVEL_DETAIL", None):
+        cov["level_detail"] = prop.LEVEL_DETAIL
     ev["coverage"] = cov
     ev["assumptions"] = list(prop.ASSUMPTIONS) + ctx.notes
     ev["violations"] = len(violations) + (1 if (rc and not violations) else 0)
